@@ -64,6 +64,15 @@ Definition waiter_ids (cs : list cpc) : list nat :=
                      | _ => []
                      end) cs.
 
+(* instrumented ops that have run (the harness sees only those) *)
+Definition ran_seen (s : st) : list nat :=
+  filter (fun id => negb (memn id (waiter_ids (clients s)))) (ran s).
+
+(* one number per step:
+   res + 4 * (|ran| + 64 * (qword + 512 * statuses))
+   res: 0 nothing to release, 1 ran to its next point / end, 2 blocked;
+   qword = 8 * queue length + 4 * worker exists + 2 * isClosed + flag;
+   statuses = base-8 digits, client 0 lowest, the worker highest *)
 Definition observe (res : Z) (released : list nat) (s : st) : V :=
   let cs := map (fun ic => cstatus (memn (fst ic) released) (snd ic))
                 (combine (seq 0 (length (clients s))) (clients s)) in
@@ -72,11 +81,10 @@ Definition observe (res : Z) (released : list nat) (s : st) : V :=
            | [j] => match nth_error (workers s) j with Some w => wstatus w | None => 7%Z end
            | _ => 7%Z          (* two live workers: never matches the implementation *)
            end in
-  VL [VZ res; VZ (pack (cs ++ [w]));
-      VZ (Z.of_nat (length (queue s)) * 8
-          + b2z (match busy s with Some _ => true | None => false end) * 4
-          + b2z (closed s) * 2 + b2z (flag s));
-      VL (map Vnat (filter (fun id => negb (memn id (waiter_ids (clients s)))) (ran s)))].
+  let qword := (Z.of_nat (length (queue s)) * 8
+                + b2z (match busy s with Some _ => true | None => false end) * 4
+                + b2z (closed s) * 2 + b2z (flag s))%Z in
+  VZ (res + 4 * (Z.of_nat (length (ran_seen s)) + 64 * (qword + 512 * pack (cs ++ [w]))))%Z.
 
 (* released clients that became enabled finish *)
 Fixpoint complete (fx : bool) (s : st) (rel : list nat) : st * list nat :=
@@ -128,7 +136,7 @@ Definition run_with (fx : bool) (inp : Z * list (Z * Z) * list Z) : V :=
   | (cbz, progs, sch) =>
       let s0 := init (cb_of cbz) (map prog_of progs) in
       let (obs, sf) := go fx s0 [] (map Z.to_nat sch) in
-      VL [VL obs; VL (map Vnat (accepted sf)); VB (panicked sf)]
+      VL [VL obs; VL (map Vnat (ran_seen sf)); VL (map Vnat (accepted sf)); VB (panicked sf)]
   end.
 
 Definition run := run_with fx_current.
